@@ -198,7 +198,7 @@ int main(int argc, char** argv) {
     char head[256];
     snprintf(head, sizeof head, "{\"id\":%s,\"err\":%u,\"h\":%d,\"threw\":%d,\"oneshot\":%d,\"dl\":%zu,\"df\":%zu,\"dr\":%zu,\"ds\":%zu,\"bytes\":\"",
              id.c_str(), unsigned(err), E.eh.calls, int(threw), int(oneshot_left),
-             E.code.label_count() - labels0 - (self_label.is_valid() ? 1 : 0), E.code.unresolved_fixup_count() - fix0,
+             E.code.label_count() - labels0, E.code.unresolved_fixup_count() - fix0,
              E.code.reloc_entries().size() - rel0, E.code.section_count() - sec0);
     out += head;
     if (off1 > off0) out += hexstr(a.buffer_data() + off0, off1 - off0);
